@@ -125,8 +125,28 @@ def glwe_instances():
     return out
 
 
+def glwe_decrypt_instances():
+    out = []
+    shapes = [(12, 12, 12, 12), (17, 35, 17, 35), (12, 24, 12, 12), (17, 35, 17, 17), (5, 15, 12, 12), (8, 24, 17, 17), (12, 24, 5, 20), (5, 15, 3, 15), (8, 39, 17, 34), (17, 34, 8, 39), (12, 13, 12, 24)]
+    for b, k, bo, ko in shapes:
+        size = -(-k // b)
+        for rank in (1, 2, 3):
+            for variant in (0, 1, 2):
+                sp, sec = secret_code(2, rank, variant)
+                _, dec = glwe_tmp(2, size)
+                ar = (dec + 128 + 64 * 3 + 7) // 8
+                core = (b, k, bo, ko, rank, variant) in ((17, 35, 17, 35, 2, 0), (8, 24, 17, 17, 1, 0), (12, 24, 5, 20, 1, 2), (17, 35, 17, 17, 3, 0))
+                out.append(Instance(crate="hk_core", family="glwe.decrypt_vs_phase_oracle", name=f"c01_glwe_dec_b{b}_k{k}_o{bo}_{ko}_r{rank}_v{variant}",
+                                    call=f"crate::c01_glwe::glwe_decrypt_oracle::<{b}, {k}, {bo}, {ko}, {ar}>({rank}, {sp})", unwind=max(3 * size, 2 * 2 * (rank + 1), 3 * -(-ko // bo)) + 10,
+                                    params={"n": 2, "base2k": b, "k": k, "rank": rank, "ct_limbs": size, "out_base2k": bo, "out_k": ko, "secret": sec},
+                                    symbolic=["every ciphertext limb (normalised digits)", "prior plaintext content"], stubs=[CORE_STUBS[-1], CORE_STUBS[-2]],
+                                    functions=["poulpy-core/src/decryption/glwe.rs::glwe_decrypt_default", "poulpy-core/src/layouts/prepared/glwe_secret.rs::glwe_secret_prepare"] + PROBE_FUNCS,
+                                    timeout=1800, mem_gb=24, core=core))
+    return out
+
+
 def instances(tier, seed):
-    return normal_instances() + lwe_instances() + glwe_instances()
+    return normal_instances() + lwe_instances() + glwe_instances() + glwe_decrypt_instances()
 
 
 META = {
